@@ -158,7 +158,7 @@ def check(run):
     run.floor('R10.gen', 12)
     run.floor('R10.order', 8)
     run.floor('R10.fold', 3)
-    run.floor('R10.link', 6)
+    run.floor('R10.link', 7)
     run.floor('R11.take', 8)
     run.floor('R11.place', 10)
     run.floor('R11.gate', 10)
